@@ -515,7 +515,7 @@ paf24_read (SF_PRIVATE *psf, PAF24_PRIVATE *ppaf24, int *ptr, int len)
 {	int	count, total = 0 ;
 
 	while (total < len)
-	{	if (ppaf24->read_block * PAF24_SAMPLES_PER_BLOCK >= ppaf24->sample_count)
+	{	if ((ppaf24->read_block - 1) * PAF24_SAMPLES_PER_BLOCK + ppaf24->read_count >= ppaf24->sample_count)
 		{	memset (&(ptr [total]), 0, (len - total) * sizeof (int)) ;
 			return total ;
 			} ;
